@@ -113,6 +113,9 @@ void DataSet::getData(T &value, const NDSize &offset) const
     if (! count) {
         count = NDSize(offset.size(), 1);
     }
+    if (! count && dataExtent().nelms() != 1) {
+        throw InvalidRank("A scalar without an offset can only take data of exactly one element");
+    }
     getData(dtype, hydra.data(), count, offset);
 }
 
@@ -124,6 +127,12 @@ void DataSet::setData(const T &value, const NDSize &offset)
 
     DataType dtype = hydra.element_data_type();
     NDSize shape = hydra.shape();
+    if (! shape) {
+        shape = NDSize(offset.size(), 1);
+    }
+    if (! shape && dataExtent().nelms() != 1) {
+        throw InvalidRank("A scalar without an offset can only be written to data of exactly one element");
+    }
 
     setData(dtype, hydra.data(), shape, offset);
 }
